@@ -42,6 +42,9 @@ def schemeOf : String → Option Scheme
   | "https" => some .https
   | "HTTPS" => some .https           -- http::Uri parses the scheme case-insensitively
   | "http" => some .http
+  -- `+o<scheme>`: Endpoint::origin(..) set as well; it does not take part in the TLS decision
+  | "https+ohttp" => some .https
+  | "http+ohttps" => some .http
   | _ => none
 
 def mapM? {α β : Type} (f : α → Option β) : List α → Option (List β)
